@@ -343,6 +343,10 @@ func (w *World) genDevice(stream string, maxBytes int) kernel.DevCfg {
 		}
 	}
 	cfg.Chunks = w.genChunks(stream)
+	if w.t.Chance(stream, "dev.helper", 1, 12) {
+		cfg.Helper = true
+		w.r.Fault("buffer_filled_by_helper_goroutine_while_the_callers_stack_moves")
+	}
 	if w.t.Chance(stream, "dev.fail", 3, 10) {
 		cfg.ErrAt = w.t.Choose(stream, "dev.errat", maxBytes+8)
 		cfg.ErrKind = 1 + w.t.Choose(stream, "dev.errkind", 4)
